@@ -20,7 +20,6 @@ def stdC : Txt := "\nend;\n\nbegin trees;\n\t".toList
 def stdTranslate : Txt := "translate".toList
 def stdD : Txt := "\n".toList
 def stdTree : Txt := "tree ".toList
-def stdT : Txt := "t".toList
 def stdEq : Txt := "= [&U] ".toList
 def stdE : Txt := "end;\n".toList
 
@@ -42,7 +41,7 @@ def stdTrLines (m : List (String × String)) : List String → Txt
 
 def stdTreeLines (C : NewickCodec) (m : List (String × String)) : Nat → List T → Txt
   | _, [] => []
-  | i, t :: r => stdTree ++ ((stdT ++ natTxt i) ++ ' ' :: (stdEq ++ (C.write (renameT m t) ++ '\n' :: stdTreeLines C m (i + 1) r)))
+  | i, t :: r => stdTree ++ ((litTree2 ++ natTxt i) ++ ' ' :: (stdEq ++ (C.write (renameT m t) ++ '\n' :: stdTreeLines C m (i + 1) r)))
 
 /-- the document: taxa `labels`, trees `ts` written with their tips replaced by the numbers -/
 def writeNexusStd (C : NewickCodec) (labels : List String) (ts : List T) : Txt :=
